@@ -39,7 +39,8 @@ Record env := {
   e_own : list string;        (* names in cls.__dict__ before the installation *)
   e_fields : list string;     (* dataclass fields = __expected_keys__ *)
   e_nt : bool;                (* _is_non_tensor (the NonTensorData class itself) *)
-  e_tdcm : list string        (* classmethods found in TensorDict.__dict__ *)
+  e_tdcm : list string;       (* classmethods found in TensorDict.__dict__ *)
+  e_cmw : list string         (* inherited attributes that are classmethod wrappers installed on a decorated base class *)
 }.
 
 Definition installed := list (string * ikind).
@@ -70,7 +71,10 @@ Definition run_step (e : env) (st : installed) (s : step) : installed :=
   match s with
   | SOne n g => put e g KExplicit st n
   | STable tbl g k => fold_left (put e g k) tbl st
-  | SClassmethods => fold_left (put e GNotInDict KClassmethod) (e_tdcm e) st
+  | SClassmethods =>
+      (* not in cls.__dict__, and whatever the class inherits under that name is a wrapper of this very loop (a definition
+         made by the tensorclass machinery or by the user on a base class is kept) *)
+      fold_left (fun st n => if negb (hasattr e st n) || mem n (e_cmw e) then put e GNotInDict KClassmethod st n else st) (e_tdcm e) st
   end.
 
 Definition install (e : env) (steps : list step) : installed := fold_left (run_step e) steps [].
@@ -311,7 +315,7 @@ Definition set_field (fields : list string) (locked : bool) (o : opts) (h : hint
   else match place o h v with
        | PNone => SOk {| s_td := remove_key k (s_td s); s_nt := upd k NNone (s_nt s) |}
        | PTensor _ => SOk {| s_td := upd k (match v with VkColl => VColl id | _ => VTensor id end) (s_td s); s_nt := remove_key k (s_nt s) |}
-       | PCollFromDict => SOk {| s_td := upd k (VColl id) (s_td s); s_nt := s_nt s |}
+       | PCollFromDict => SOk {| s_td := upd k (VColl id) (s_td s); s_nt := remove_key k (s_nt s) |}
        | PNonTensor _ => SOk {| s_td := upd k (VNonTensor id) (s_td s); s_nt := remove_key k (s_nt s) |}
        end.
 
